@@ -164,6 +164,29 @@ static void part_structure(void) {
 						vf_outcome("struct:serialized");
 					}
 					KSI_free(out);
+					/* the object changed in place (its last publication record taken out of the list the getter hands out) and serialized
+					 * again: the signed range is everything before the signature record of the bytes the object stands for NOW */
+					if (sr == KSI_OK) {
+						KSI_LIST(KSI_PublicationRecord) *pl = NULL;
+						if (KSI_PublicationsFile_getPublications(pf, &pl) == KSI_OK && pl != NULL && KSI_PublicationRecordList_length(pl) > 0) {
+							KSI_PublicationRecord *gone = NULL;
+							char *o2 = NULL;
+							size_t n2 = 0, off2 = 8, sdl3 = 0;
+							if (KSI_PublicationRecordList_remove(pl, KSI_PublicationRecordList_length(pl) - 1, &gone) == KSI_OK) {
+								KSI_PublicationRecord_free(gone);
+								if (KSI_PublicationsFile_serialize(ctx, pf, &o2, &n2) == KSI_OK && o2 != NULL) {
+									rtlv t2;
+									int f2 = 0;
+									while (off2 < n2 && rtlv_read((const unsigned char *)o2 + off2, n2 - off2, &t2) == 0) { if (t2.tag == 0x704) { f2 = 1; break; } off2 += t2.hdr + t2.len; }
+									if (f2 && (KSI_PublicationsFile_getSignedDataLength(pf, &sdl3) != KSI_OK || sdl3 != off2))
+										vf_fail("signed-range", "sequence %s: after a publication record was removed in place and the file serialized again, the signed data length is reported as %zu, the signature record of the new bytes starts at %zu", seq, sdl3, off2);
+									vf_outcome("struct:serialized-after-in-place-change");
+								}
+								vf_count("impl_calls", 2);
+								KSI_free(o2);
+							}
+						}
+					}
 				}
 				vf_obs("res=%x sdl=%zu", res, sdl);
 				KSI_PublicationsFile_free(pf);
